@@ -820,6 +820,19 @@ func (w *World) M07(rec *ScanRecord) []Violation {
 			if P < wantK {
 				wantK = P
 			}
+			// capacity is restored by untainting nodes of the tainted (uncordoned) pool
+			kPool := int64(0)
+			for _, name := range un {
+				for _, n := range gr.GV.Tainted {
+					if n.Name == name {
+						kPool++
+					}
+				}
+			}
+			if kPool != K && !nodeFailures {
+				out = append(out, viol("C03", "recover-untaints-unschedulable-node", "group %d below its minimum: %d nodes untainted, only %d of them from the schedulable tainted pool", gr.G, K, kPool))
+				out = append(out, viol("C07", "recover-untaints-unschedulable-node", "group %d below its minimum: %d nodes untainted, only %d of them from the schedulable tainted pool", gr.G, K, kPool))
+			}
 			if K != wantK && !nodeFailures {
 				out = append(out, viol("C07", "recover-untaint-count", "group %d: need %d, %d tainted, untainted %d", gr.G, N, P, K))
 			}
